@@ -1,8 +1,26 @@
+import OxiVerif.Model.C12
 /-
-C12 (CFF part) — placeholder, replaced below when the CFF path is modelled.
+C12 (CFF part) — model of the glyph selection and renumbering of
+`text/fonts/cff_subsetter.rs::subset_cff_font`:
+  needed_gids = [0] ++ (cmap gid of every used char, gid != 0), sorted, dedup'd
+  gid_remap   = position in that list
+  glyph_mapping[c] = gid_remap[cmap c]
+  CharStrings INDEX of the output = the (desubroutinised) charstring of needed_gids[i] at i.
+The abstraction of a glyph is what the harness's independent CFF reader extracts: the advance
+width resolved against defaultWidthX/nominalWidthX (a decimal token) and the fingerprint of the
+flattened (subroutine-free) Type 2 token stream.  The byte assembly of the new CFF (Top DICT,
+charset, FDSelect, FDArray, Private) is NOT modelled. Import-free.
 -/
-namespace OxiVerif.C12Cff
+namespace OxiVerif.C12
 
-def handleCF (_fs : List String) (impl : String) : String × String := (impl, "na")
+structure CffRow where
+  width : String
+  fp : Nat
+  deriving DecidableEq, Repr, Inhabited
 
-end OxiVerif.C12Cff
+def cffSubset (cmap : Nat → Option Gid) (fact : Gid → CffRow) (used : List Nat) :
+    List (Nat × Gid) × List CffRow :=
+  let sorted := sortGids (initNeeded used cmap)
+  (newMapping cmap sorted used, sorted.map fact)
+
+end OxiVerif.C12
